@@ -216,6 +216,26 @@ def check_region(ctx, reg, model, rc, tags, rng, origins=None, n_single=150):
                             observed={"points": numpy.column_stack([lon[j], lat[j]]), "index": idx_obs[j]}, expected={"cell(-1=outside)": primary[j]},
                             tags=dict(tags, api="get_index_of", clause="index",
                                       beyond_open_side_of_single_row_or_column=bool(single_axis and beyond)))
+    # --- batch lookup decided by the model alone (independent of get_masked): all model-inside points must be indexed, and a batch that
+    #     contains one model-outside point must be rejected as a whole
+    sure_in = numpy.nonzero((primary >= 0) & ~inband)[0]
+    sure_out = numpy.nonzero((primary == -1) & ~inband)[0]
+    if sure_in.size:
+        ok, idx2, tb = ctx.call(reg.get_index_of, lon[sure_in], lat[sure_in])
+        ctx.mon("lookup:get_index_of", 1)
+        if not ok or not numpy.array_equal(numpy.asarray(idx2, dtype=int), primary[sure_in]):
+            ctx.violate("batch index lookup of points inside active cells does not return their cells", rc,
+                        observed=repr(idx2)[:160] if not ok else {"n_wrong": int(numpy.sum(numpy.asarray(idx2) != primary[sure_in]))},
+                        tags=dict(tags, api="get_index_of", clause="index-batch"))
+        if sure_out.size:
+            k = int(sure_out[rng.integers(0, sure_out.size)])
+            sub = sure_in[rng.permutation(sure_in.size)[:20]]
+            ok, idx3, tb = ctx.call(reg.get_index_of, numpy.append(lon[sub], lon[k]), numpy.append(lat[sub], lat[k]))
+            if ok:
+                ctx.violate("batch index lookup accepts a point that lies in no active cell", rc,
+                            observed={"point": [lon[k], lat[k]], "index": int(numpy.asarray(idx3)[-1])}, expected="ValueError",
+                            tags=dict(tags, api="get_index_of", clause="index-batch-outside",
+                                      in_hole_or_flagged=bool(model.ex[0] <= lon[k] < model.ex[-1] and model.ey[0] <= lat[k] < model.ey[-1])))
     # --- point by point: raises exactly when masked
     near = model.near_boundary(lon, lat)
     cand = numpy.concatenate([numpy.nonzero(near)[0], numpy.nonzero(masked)[0][:40]])
